@@ -213,9 +213,21 @@ fn run(ctx: &Ctx) -> Part {
                 let mut states = HashSet::new();
                 let (lw, lh) = cfg.geo().lsize();
                 let ops = alphabet(lw, lh, false);
-                for b in &ops {
+                // the other public calls may sit between two drawing calls (state carried between calls)
+                let mut mid = ops.clone();
+                mid.extend([Op::Sleep, Op::Wake, Op::Tearing(0), Op::Tearing(1), Op::Tearing(2), Op::ScrollRegion(1, 0), Op::ScrollOffset(1)]);
+                for b in &mid {
                     for c in &ops {
                         check_one(ctx, &mut acc, cfg, &[ops[*i].clone(), b.clone(), c.clone()], &mut states);
+                    }
+                }
+                // ... or come first, twice
+                if *i < 7 {
+                    let first = mid[ops.len() + *i].clone();
+                    for b in &mid {
+                        for c in &ops {
+                            check_one(ctx, &mut acc, cfg, &[first.clone(), b.clone(), c.clone()], &mut states);
+                        }
                     }
                 }
                 acc.count("depth3_programs", (ops.len() * ops.len()) as u64);
